@@ -79,6 +79,8 @@ HDR_VARIANTS = [
     ('both-empty', b'Date:', b'Message-Id: '),
     # a message without a single header field (the header block is empty)
     ('no-headers', None, None),
+    # the message starts with a Return-Path field (unusual but legal): a new Received field still goes in front of everything
+    ('return-path-first', None, None),
 ]
 
 
@@ -250,6 +252,9 @@ def message_data(hv):
     label, date, mid = HDR_VARIANTS[hv]
     if label == 'no-headers':
         return b'\r\n' + BODY
+    if label == 'return-path-first':
+        return b'\r\n'.join([b'Return-Path: <bounces@example.test>', OLD_RECEIVED, b'From: sender@example.test', b'To: list@example.test',
+                              b'Subject: conservation', b'X-Last: kept']) + b'\r\n\r\n' + BODY
     lines = [OLD_RECEIVED, b'From: sender@example.test', b'To: list@example.test']
     if date:
         lines.append(date)
@@ -554,6 +559,8 @@ def header_variants_for(chain, rcpts):
     out = [0]
     if len(rcpts) >= 2 and len(chain) <= 3:
         out.append(5)          # header-less message: only interesting when something is split and edited afterwards
+    if 'AddReceivedHeader' in chain and len(rcpts) <= 2:
+        out.append(6)
     if relevant and len(rcpts) <= 2:
         out += [1, 2, 4]
     if relevant or len(chain) <= 2:
@@ -580,10 +587,15 @@ def run_chain(chain, cases, res, collect=None):
         store = RecordingStorage()
         queue = Queue(store, relay=None)
         shared = []
+        built = {}
         for name in chain:
-            pol = make_policy(name)
+            # the same name twice in a chain = the same policy OBJECT added twice (as an application that keeps one
+            # instance around does); distinct objects of one class are covered by the Forward1..4 names
+            pol = built.get(name)
+            if pol is None:
+                pol = built[name] = make_policy(name)
             queue.add_policy(pol)
-            if name in FORWARD_RULES and len(pol.mapping) != len(FORWARD_RULES[name]):
+            if name in FORWARD_RULES and len(pol.mapping) != len(FORWARD_RULES[name]) and list(chain).count(name) == 1:
                 shared.append((name, len(pol.mapping), len(FORWARD_RULES[name])))
         if shared and res is not None:
             for name, got, want in shared[:1]:
